@@ -274,3 +274,21 @@ _REANCHOR.update({
 for _w in WITNESSES:
     if _w["name"] in _REANCHOR:
         _w["old"], _w["new"] = _REANCHOR[_w["name"]]
+_REANCHOR.update({
+    # round-7 fixes moved these anchors (identity test in the link arm, queued failures with positions, compound name gates)
+    "symlink created without is_path_valid": (
+        "                            if is_path_contained(fileish.parent.joinpath(dst), path):\n                                if self.own_stats and os.path.lexists(fileish):",
+        "                            if True:\n                                if self.own_stats and os.path.lexists(fileish):"),
+    "re-raise dropped": (
+        "                        position, exc_info = min(failures, key=lambda failure: failure[0])\n                        raise exc_info[1].with_traceback(exc_info[2])\n",
+        "                        position, exc_info = min(failures, key=lambda failure: failure[0])\n"),
+    "writef without the gate": (
+        "        if not check_archive_path(arcname) or names_the_root(arcname):\n            raise ValueError(f\"Specified path is bad: {arcname}\")\n        return self._writef(bio, arcname)\n",
+        "        return self._writef(bio, arcname)\n"),
+    "gate raises only a warning": (
+        "        if not check_archive_path(arcname) or names_the_root(arcname):\n            raise ValueError(f\"Specified path is bad: {arcname}\")\n        return self._writestr(data, arcname)\n",
+        "        if not check_archive_path(arcname) or names_the_root(arcname):\n            pass\n        return self._writestr(data, arcname)\n"),
+})
+for _w in WITNESSES:
+    if _w["name"] in _REANCHOR:
+        _w["old"], _w["new"] = _REANCHOR[_w["name"]]
